@@ -33,6 +33,17 @@ impl SeqGroup {
     }
 
     pub fn apply_range(&mut self, start: u64, len: u64) {
+        // the current range is used up while the other one still holds (older, smaller) ids:
+        // continue with those first and let the new range wait behind them, otherwise ids would be
+        // issued from the new range and fall back to the older one afterwards
+        let (current_has_next, other_has_next) = if self.use_a {
+            (self.range_a.has_next(), self.range_b.has_next())
+        } else {
+            (self.range_b.has_next(), self.range_a.has_next())
+        };
+        if !current_has_next && other_has_next {
+            self.switch_state();
+        }
         if self.use_a && !self.range_a.has_next() || !self.use_a && self.range_b.has_next() {
             self.range_a.renew(start, len);
         } else {
